@@ -5,7 +5,7 @@
 (* (history variable `path`, hidden from fingerprinting by VIEW) and the     *)
 (* action itself.  Expected outputs are not exported: TLC re-derives them    *)
 (* when it validates the recorded trace (TraceDirectory).                    *)
-EXTENDS AkdDirectory, Json, TLC
+EXTENDS AkdProofGame, Json, TLC
 
 CONSTANTS MaxEpoch, MaxBatch, MaxPerEpoch, Export
 
